@@ -106,13 +106,21 @@ def ref_constraint(name, bound, v):
     if name == "const":
         if _isnan(v) or _isnan(bound):
             return False
-        if not (v == bound):
-            return False
+        try:
+            if not (v == bound):
+                return False
+        except Exception:
+            return False          # a value whose comparison raises equals no constant
         if type(v) is type(bound):
             return True
         return {type(v), type(bound)} in TOLERANCE
     if name == "enum":
-        return any((v == b) for b in bound)
+        def _eq(a, b):
+            try:
+                return bool(a == b)
+            except Exception:
+                return False
+        return any(_eq(v, b) for b in bound)
     if name == "max_digits":
         d = digits_of(v)
         if d is None:
